@@ -6,132 +6,6 @@ namespace MosnVerif.Model.ConfigCodec
 open MosnVerif.Model MosnVerif.Model.GoDuration
 
 
-mutual
-theorem Shape.eq_of_beq : (a b : Shape) → Shape.beq a b = true → a = b
-  | .str, b, h => by cases b <;> simp [Shape.beq] at h <;> rfl
-  | .num, b, h => by cases b <;> simp [Shape.beq] at h <;> rfl
-  | .bool, b, h => by cases b <;> simp [Shape.beq] at h <;> rfl
-  | .hole, b, h => by cases b <;> simp [Shape.beq] at h <;> rfl
-  | .hmap, b, h => by cases b <;> simp [Shape.beq] at h <;> rfl
-  | .dur, b, h => by cases b <;> simp [Shape.beq] at h <;> rfl
-  | .struct fa, b, h => by
-    cases b <;> simp [Shape.beq] at h
-    rename_i fb; rw [Fields.eq_of_beq fa fb h]
-  | .slice ea, b, h => by
-    cases b <;> simp [Shape.beq] at h
-    rename_i eb; rw [Shape.eq_of_beq ea eb h]
-  | .map ea, b, h => by
-    cases b <;> simp [Shape.beq] at h
-    rename_i eb; rw [Shape.eq_of_beq ea eb h]
-  | .ptr ea, b, h => by
-    cases b <;> simp [Shape.beq] at h
-    rename_i eb; rw [Shape.eq_of_beq ea eb h]
-theorem Fields.eq_of_beq : (a b : Fields) → Fields.beq a b = true → a = b
-  | .nil, b, h => by cases b <;> simp [Fields.beq] at h <;> rfl
-  | .cons k o s r, b, h => by
-    cases b <;> simp [Fields.beq] at h
-    rename_i k' o' s' r'
-    obtain ⟨⟨⟨h1, h2⟩, h3⟩, h4⟩ := h
-    rw [h1, h2, Shape.eq_of_beq s s' h3, Fields.eq_of_beq r r' h4]
-end
-
-theorem shape_eq_of_beq (a b : Shape) (h : (a == b) = true) : a = b := Shape.eq_of_beq a b h
-
-/-! ### positions in a field table -/
-
-theorem wtF_length : (fs : Fields) → (vs : List CVal) → wtF fs vs = true → vs.length = fs.length
-  | .nil, [], _ => rfl
-  | .nil, _ :: _, h => by simp [wtF] at h
-  | .cons _ _ _ r, [], h => by simp [wtF] at h
-  | .cons _ _ _ r, v :: vs, h => by
-    simp only [wtF, Bool.and_eq_true] at h
-    simp [Fields.length, wtF_length r vs h.2]
-
-theorem get?_lt : (fs : Fields) → (i : Nat) → (x : String × Bool × Shape) → fs.get? i = some x → i < fs.length
-  | .nil, _, _, h => by simp [Fields.get?] at h
-  | .cons _ _ _ r, 0, _, _ => by simp [Fields.length]
-  | .cons _ _ _ r, i + 1, x, h => by
-    simp only [Fields.get?] at h
-    have := get?_lt r i x h
-    simp [Fields.length]; omega
-
-/-- replacing the value of field `i` by a value of its shape keeps the struct well-typed -/
-theorem wtF_set : (fs : Fields) → (vs : List CVal) → (i : Nat) → (k : String) → (o : Bool) → (sh : Shape) → (v : CVal) →
-    wtF fs vs = true → fs.get? i = some (k, o, sh) → wt sh v = true → wtF fs (vs.set i v) = true
-  | .nil, _, _, _, _, _, _, _, h, _ => by simp [Fields.get?] at h
-  | .cons _ _ _ r, [], _, _, _, _, _, h, _, _ => by simp [wtF] at h
-  | .cons k' o' sh' r, v' :: vs, 0, k, o, sh, v, h, hg, hv => by
-    simp only [Fields.get?, Option.some.injEq, Prod.mk.injEq] at hg
-    obtain ⟨_, _, rfl⟩ := hg
-    simp only [wtF, Bool.and_eq_true] at h
-    simp [wtF, hv, h.2]
-  | .cons k' o' sh' r, v' :: vs, i + 1, k, o, sh, v, h, hg, hv => by
-    simp only [Fields.get?] at hg
-    simp only [wtF, Bool.and_eq_true] at h
-    simp [wtF, h.1, wtF_set r vs i k o sh v h.2 hg hv]
-
-/-- the value of field `i` after one cycle -/
-theorem normF_get : (fs : Fields) → (vs : List CVal) → (i : Nat) → (k : String) → (o : Bool) → (sh : Shape) → (v : CVal) →
-    wtF fs vs = true → fs.get? i = some (k, o, sh) → vs[i]? = some v →
-    (normF fs vs)[i]? = some (if o && isEmpty v then zero sh else norm sh v)
-  | .nil, _, _, _, _, _, _, _, h, _ => by simp [Fields.get?] at h
-  | .cons _ _ _ r, [], _, _, _, _, _, h, _, _ => by simp [wtF] at h
-  | .cons k' o' sh' r, v' :: vs, 0, k, o, sh, v, h, hg, hv => by
-    simp only [Fields.get?, Option.some.injEq, Prod.mk.injEq] at hg
-    obtain ⟨_, rfl, rfl⟩ := hg
-    simp only [List.getElem?_cons_zero, Option.some.injEq] at hv
-    subst hv
-    simp [normF]
-  | .cons k' o' sh' r, v' :: vs, i + 1, k, o, sh, v, h, hg, hv => by
-    simp only [Fields.get?] at hg
-    simp only [wtF, Bool.and_eq_true] at h
-    simp only [List.getElem?_cons_succ] at hv
-    simp [normF, normF_get r vs i k o sh v h.2 hg hv]
-
-theorem set_self (l : List CVal) (i : Nat) (v : CVal) (h : l[i]? = some v) : l.set i v = l := by
-  induction l generalizing i with
-  | nil => simp
-  | cons a r ih =>
-    cases i with
-    | zero => simp at h; simp [h]
-    | succ i => simp at h; simp [ih i h]
-
-/-! ### metadata wrappers -/
-
-theorem metaAt_get (fs : Fields) (i : Nat) (h : metaAt fs i = true) : ∃ k, fs.get? i = some (k, true, metaShape) := by
-  unfold metaAt at h
-  split at h
-  · rename_i k o sh hg
-    simp only [Bool.and_eq_true] at h
-    obtain ⟨ho, hs⟩ := h
-    subst ho
-    exact ⟨k, by rw [hg, shape_eq_of_beq sh metaShape hs]⟩
-  · simp at h
-
-theorem wt_fromMeta (md : List (String × String)) : wt metaShape (fromMeta md) = true := by
-  unfold fromMeta metaShape; split <;> simp [wt, wtF, wtL, ptrElemOK, isObjOrNull]
-
-/-- the metadata member written by `metadataToConfig` comes back unchanged from one cycle -/
-theorem norm_fromMeta (md : List (String × String)) :
-    (if true && isEmpty (fromMeta md) then zero metaShape else norm metaShape (fromMeta md)) = fromMeta md := by
-  unfold fromMeta metaShape
-  split
-  · simp [isEmpty, zero]
-  · simp [isEmpty, norm, normL, normF]
-
-theorem mdOf_fromMeta (md : List (String × String)) (h : (md.map (·.1)).Nodup) : mdOf (some (fromMeta md)) = md := by
-  unfold fromMeta
-  by_cases he : md = []
-  · simp [he, mdOf]
-  · have he' : md.isEmpty = false := by cases hq : md <;> simp_all
-    simp [he', mdOf, toMeta_fromMeta md h]
-
-theorem mdOf_nodup (v : Option CVal) : ((mdOf v).map (·.1)).Nodup := by
-  unfold mdOf
-  split
-  · exact toMeta_nodup _
-  · simp
-
 /-- **metadata wrappers** (ClusterWeight, RouteAction, Router, Host): for every field table with case-distinct keys whose
 member `i` is an `omitempty` `*MetadataConfig`, what `MarshalJSON` writes after one `UnmarshalJSON` is a fixpoint -/
 theorem meta_fixpoint (fs : Fields) (i : Nat) (hk : keysOKF fs = true) (hm : metaAt fs i = true)
